@@ -251,6 +251,7 @@ Definition idtoken_checks (now : Z) (kw m : msg) : list (bool * exc) :=
     (negb (iat + storage <? now - skew)%Z, EIat);
     (negb (now + skew <? iat)%Z, EIat);
     (negb (exp <? iat)%Z, EIat);
+    (match get "nonce" kw with Some _ => has "nonce" m | None => true end, EMissingRequired);   (* the nonce that was sent must come back *)
     (match get "nonce" kw, get "nonce" m with Some k, Some v => py_eq k v | _, _ => true end, ValueError) ].
 Definition idtoken_verify (c : mclass) (now : Z) (kw m : msg) : res unit :=
   _ <- openid_verify c m ;;
